@@ -14,7 +14,8 @@ RULE = (
     "shuffle off/on, reaped raw / as Dataset / as DataFrame, result kinds "
     "number, float and integer array, bool, str, tuple, Dataset; each case: refused without "
     "allow_incomplete, partial reap position by position, tree untouched, "
-    "then grow the rest and full reap; non-trivial = every case (each has "
+    "then grow the rest and full reap; plus crops of 11, 12, 100 and 101 "
+    "batches with first / last / odd / all-but-one finished; non-trivial = every case (each has "
     ">= 1 finished and >= 1 missing batch)"
 )
 ASSUMPTIONS = [
@@ -56,6 +57,20 @@ def cases(tier, seed):
                            # the reaping object is the long-lived sower that
                            # looked at its progress before others grew
                            "live": (h + j + len(sub)) % 3 == 0}
+
+
+    # crops with two- and three-digit batch ids: first / last / odd / all
+    # but one finished
+    for B, N, mode in ((11, 11, "batchsize"), (12, 25, "num_batches"),
+                       (101, 101, "batchsize"), (100, 201, "num_batches")):
+        req = 1 if mode == "batchsize" else B
+        subs = [[1], [B], [2, 10], list(range(1, B + 1, 2)),
+                list(range(1, B)), list(range(2, B + 1)), [B - 1, B]]
+        for si, sub in enumerate(subs):
+            form, kind = FORMS[(si * 3 + B) % len(FORMS)]
+            yield {"N": N, "mode": mode, "req": req, "finished": sub,
+                   "shuffle": bool((si + B) % 2), "form": form, "kind": kind,
+                   "live": si % 3 == 0}
 
 
 def worker_init():
